@@ -2087,7 +2087,8 @@ class Association(threading.Thread):
                     except Exception as exc:
                         LOGGER.error("Failed to decode the received Identifier dataset")
                         LOGGER.exception(exc)
-                        yield status, None
+                        # Yield (status, None) below, once and without holding the lock
+                        identifier = None
 
                 yield status, identifier
                 continue
